@@ -1,5 +1,308 @@
-import WaVerif.Model.C15
-/-! placeholder, replaced below -/
+import WaVerif.Lemmas.C15Bridge
+/-!
+# C15 — property theorems (constant folding: exact arithmetic, representability, fold = run time)
+
+Every `theorem` in this file is an obligation of the check and is axiom-audited.
+`binaryOp true` is the pinned code (int64 fast path of `QUO_ASSIGN` wraps `MinInt64 / -1`),
+`binaryOp false` the code with that case repaired; the check probes which one /repo has.
+-/
 namespace WaVerif.C15
-theorem placeholder_c15 : fits64 0 = true := by decide
+open WaVerif
+
+/-! ## 1. untyped constant arithmetic is exact -/
+
+/-- full statement: `BinaryOp` equals exact integer arithmetic (and panics exactly on a zero divisor) -/
+def ConstIntExactStatement (quoWraps : Bool) : Prop :=
+  ∀ (op : BOp) (x y : Int),
+    binaryOp quoWraps op x y = if op.isDiv && decide (y = 0) then none else some (exactBin op x y)
+
+/-- The repaired code satisfies the full statement: all fast paths (`is63bit`, `is32bit`, `int64`
+bit operations, `int64` remainder) and the math/big paths give the exact result. -/
+theorem const_int_exact : ConstIntExactStatement false :=
+  fun op x y => binaryOp_exact_of false op x y (fun h => by cases h)
+
+/-- The pinned code is exact everywhere except at the single point `MinInt64 / -1`. -/
+theorem const_int_exact_partial (op : BOp) (x y : Int)
+    (h : ¬(op = .quo ∧ x = -(2:Int)^63 ∧ y = -1)) :
+    binaryOp true op x y = if op.isDiv && decide (y = 0) then none else some (exactBin op x y) :=
+  binaryOp_exact_of true op x y (fun _ => h)
+
+/-- … and at that point it is wrong: the full statement is false of the pinned code
+(witness replayed on the real code by the check: finding `binaryop:int64-quo-minint-by-minus1`). -/
+theorem const_int_exact_quo_minint_wrong : ¬ ConstIntExactStatement true := by
+  intro h
+  have := h .quo (-(2:Int)^63) (-1)
+  revert this; decide
+
+example : ¬(BOp.quo = .quo ∧ (7:Int) = -(2:Int)^63 ∧ (2:Int) = -1) := by decide
+example : binaryOp true .mul (2^31 - 1) (2^31 - 1) = some 4611686014132420609 := by decide
+example : binaryOp true .add (2^63 - 1) 1 = some (2^63) := by decide
+
+/-- the bitwise operators are the bitwise operations on the infinite two's-complement expansions -/
+theorem const_int_exact_bits (x y : Int) (i : Nat) :
+    tbit (exactBin .and x y) i = (tbit x i && tbit y i) ∧
+    tbit (exactBin .or x y) i = (tbit x i || tbit y i) ∧
+    tbit (exactBin .xor x y) i = (tbit x i ^^ tbit y i) ∧
+    tbit (exactBin .andnot x y) i = (tbit x i && !tbit y i) :=
+  ⟨tbit_land x y i, tbit_lor x y i, tbit_lxor x y i, tbit_landnot x y i⟩
+
+/-- `Shift`: `x << s = x·2^s`, `x >> s = ⌊x / 2^s⌋`, for every count (also through the int64 fast path) -/
+theorem shift_exact (op : SOp) (x : Int) (s : Nat) : shift op x s = exactShift op x s :=
+  shift_exact_lem op x s
+
+/-- `UnaryOp`: `+x`, `-x` (with the `int64` overflow guard), `^x` with the precision rule -/
+theorem unary_exact (op : UOp) (y : Int) (prec : Nat) : unaryOp op y prec = exactUn op y prec :=
+  unary_exact_lem op y prec
+
+/-- the `^x` rule for an unsigned type of `w` bits yields the `w`-bit complement `2^w - 1 - x` -/
+theorem unary_not_unsigned (w : Nat) (x : Int) (hw : 0 < w) (hx : 0 ≤ x ∧ x < 2 ^ w) :
+    unaryOp .not x w = 2 ^ w - 1 - x := by
+  rw [unary_exact_lem]
+  unfold exactUn
+  rw [if_neg (by omega)]
+  have e : -x - 1 = (2 ^ w - 1 - x) + (-1) * 2 ^ w := by omega
+  rw [e, Int.add_mul_emod_self_right]
+  exact Int.emod_eq_of_lt (by omega) (by omega)
+
+example : unaryOp .not 5 8 = 250 := by decide
+
+theorem compare_exact (c : Go.Cmp) (x y : Int) : compare c x y = exactCmp c x y := rfl
+
+/-! ## 2. conversions report exactness correctly -/
+
+/-- `ToInt` of an untyped quotient succeeds exactly when the quotient is integral, with that value -/
+theorem toInt_exact_iff (n d v : Int) : toIntRat n d = .ok v ↔ d ≠ 0 ∧ n = v * d :=
+  toIntRat_ok_iff n d v
+
+example : toIntRat 6 3 = .ok 2 ∧ toIntRat 7 3 = .unknown := by decide
+
+/-- `Int64Val` reports `exact` iff the returned value is the constant's value -/
+theorem int64Val_exact_iff (v : Int) : (int64Val v).2 = true ↔ (int64Val v).1 = v := by
+  unfold int64Val
+  constructor
+  · intro h; exact wrap64_of_fits ((fits64_iff v).mp h)
+  · intro h; simp only at h; rw [fits64_iff, ← h]; exact fitsS_wrap64 v
+
+/-- `Uint64Val` likewise -/
+theorem uint64Val_exact_iff (v : Int) : (uint64Val v).2 = true ↔ (uint64Val v).1 = v := by
+  unfold uint64Val
+  simp only [decide_eq_true_eq]
+  omega
+
+/-! ## 3. representability is exactly the type's range -/
+
+/-- `representableConst` (both branches: the int64 bounds and the BitLen/Sign test for big values)
+accepts exactly the values in the mathematical range of the kind, for 32- and 64-bit words. -/
+theorem representable_iff_range (word : Nat) (hw : word = 4 ∨ word = 8) (v : Int) (k : Kind) :
+    representableConst word v k = true ↔ kindRange word k v :=
+  representable_iff_range_lem word hw v k
+
+example : representableConst 4 (2^32 - 1) .uint = true ∧ representableConst 4 (2^32) .uint = false
+    ∧ representableConst 4 (2^64 - 1) .uint64 = true ∧ representableConst 4 (2^64) .uint64 = false
+    ∧ representableConst 4 (-(2^63)) .int64 = true ∧ representableConst 4 (2^63) .int64 = false := by decide
+
+/-! ## 4. the checker rejects exactly when the exact value is not representable -/
+
+/-- binary operators on constants of a typed kind `k` (both operands already of that kind):
+"overflows" is reported exactly when there is no zero divisor and the exact result is out of range;
+otherwise the folded value is the exact value.  (Repaired `BinaryOp`.) -/
+theorem overflow_iff (word : Nat) (hw : word = 4 ∨ word = 8) (k : Kind) (hk : k.typed = true) (op : BOp) (x y : Int) :
+    (checkBinary false word k op x y = .overflow ↔
+      ¬(op.isDiv = true ∧ y = 0) ∧ ¬ kindRange word k (exactBin op x y)) ∧
+    (∀ v, checkBinary false word k op x y = .ok v ↔
+      ¬(op.isDiv = true ∧ y = 0) ∧ v = exactBin op x y ∧ kindRange word k v) ∧
+    (checkBinary false word k op x y = .divzero ↔ (op.isDiv = true ∧ y = 0)) := by
+  unfold checkBinary
+  rw [const_int_exact op x y]
+  have hr := representable_iff_range word hw (exactBin op x y) k
+  by_cases hd : (op.isDiv && decide (y = 0)) = true
+  · have hd' : op.isDiv = true ∧ y = 0 := by simpa using hd
+    simp [hd, hd']
+  · have hd' : ¬(op.isDiv = true ∧ y = 0) := by simpa using hd
+    simp only [hd, hk, Bool.true_and, Bool.false_eq_true, if_false]
+    by_cases hrep : representableConst word (exactBin op x y) k = true
+    · have := hr.mp hrep
+      simp [hrep, hd', this]
+      intro v; constructor
+      · intro e; subst e; exact ⟨rfl, this⟩
+      · intro e; exact e.1.symm
+    · have hn : ¬ kindRange word k (exactBin op x y) := fun e => hrep (hr.mpr e)
+      simp [hrep, hd', hn]
+      intro v e _; subst e; exact hn
+
+/-- the pinned code: same statement away from `MinInt64 / -1` -/
+theorem overflow_iff_partial (word : Nat) (hw : word = 4 ∨ word = 8) (k : Kind) (hk : k.typed = true) (op : BOp) (x y : Int)
+    (h : ¬(op = .quo ∧ x = -(2:Int)^63 ∧ y = -1)) :
+    checkBinary true word k op x y = checkBinary false word k op x y := by
+  unfold checkBinary
+  rw [const_int_exact_partial op x y h, const_int_exact op x y]
+
+/-- The pinned checker ACCEPTS `int64(MinInt64) / int64(-1)` although the exact value 2^63 is not
+representable in int64 (witness replayed on the real checker). -/
+theorem checkBinary_accepts_unrepresentable_quo_minint :
+    checkBinary true 4 .int64 .quo (-(2:Int)^63) (-1) = .ok (-(2:Int)^63) ∧
+    ¬ kindRange 4 .int64 (exactBin .quo (-(2:Int)^63) (-1)) := by
+  constructor
+  · decide
+  · decide
+
+theorem overflow_iff_shift (word : Nat) (hw : word = 4 ∨ word = 8) (k : Kind) (hk : k.typed = true) (op : SOp) (x s : Int)
+    (hs : 0 ≤ s ∧ s ≤ shiftBound) :
+    (checkShift word k op x s = .overflow ↔ ¬ kindRange word k (exactShift op x s.toNat)) ∧
+    (∀ v, checkShift word k op x s = .ok v ↔ v = exactShift op x s.toNat ∧ kindRange word k v) := by
+  unfold checkShift
+  have h1 : ¬ s < 0 := by omega
+  have h2 : (!(decide (0 ≤ s ∧ s < 2 ^ 64)) || decide (s > shiftBound)) = false := by
+    unfold shiftBound at *; simp; omega
+  rw [if_neg h1, h2]
+  simp only [Bool.false_eq_true, if_false, hk, Bool.true_and, shift_exact]
+  have hr := representable_iff_range word hw (exactShift op x s.toNat) k
+  by_cases hrep : representableConst word (exactShift op x s.toNat) k = true
+  · have := hr.mp hrep
+    simp [hrep, this]
+    intro v; constructor
+    · intro e; subst e; exact ⟨rfl, this⟩
+    · intro e; exact e.1.symm
+  · have hn : ¬ kindRange word k (exactShift op x s.toNat) := fun e => hrep (hr.mpr e)
+    simp [hrep, hn]
+    intro v e; subst e; exact hn
+
+/-- counts outside `[0, 1074]` are rejected as shift errors -/
+theorem shift_count_rejected (word : Nat) (k : Kind) (op : SOp) (x s : Int) (hs : s < 0 ∨ s > shiftBound) :
+    checkShift word k op x s = .shift := by
+  unfold checkShift
+  by_cases h1 : s < 0
+  · rw [if_pos h1]
+  · rw [if_neg h1]
+    have : (!(decide (0 ≤ s ∧ s < 2 ^ 64)) || decide (s > shiftBound)) = true := by
+      have : s > shiftBound := by omega
+      simp [this]
+    rw [if_pos this]
+
+theorem overflow_iff_unary (word : Nat) (hw : word = 4 ∨ word = 8) (k : Kind) (hk : k.typed = true) (op : UOp) (x : Int) :
+    let prec := if k.unsigned then k.bits word else 0
+    (checkUnary word k op x = .overflow ↔ ¬ kindRange word k (exactUn op x prec)) ∧
+    (∀ v, checkUnary word k op x = .ok v ↔ v = exactUn op x prec ∧ kindRange word k v) := by
+  intro prec
+  unfold checkUnary
+  simp only [hk, Bool.true_and, unary_exact]
+  have hr := representable_iff_range word hw (exactUn op x prec) k
+  by_cases hrep : representableConst word (exactUn op x prec) k = true
+  · have := hr.mp hrep
+    simp [prec] at hrep this ⊢
+    simp [hrep, this]
+    intro v; constructor
+    · intro e; subst e; exact ⟨rfl, this⟩
+    · intro e; exact e.1.symm
+  · have hn : ¬ kindRange word k (exactUn op x prec) := fun e => hrep (hr.mpr e)
+    simp [prec] at hrep hn ⊢
+    simp [hrep, hn]
+    intro v e; subst e; exact hn
+
+/-- constant conversion `T(x)` is accepted exactly when `x` is in T's range, and keeps the value -/
+theorem convert_exact (word : Nat) (hw : word = 4 ∨ word = 8) (k : Kind) (x : Int) :
+    (∀ v, checkConvert word k x = .ok v ↔ v = x ∧ kindRange word k x) ∧
+    (checkConvert word k x = .cannot ↔ ¬ kindRange word k x) := by
+  unfold checkConvert
+  have hr := representable_iff_range word hw x k
+  by_cases hrep : representableConst word x k = true
+  · have := hr.mp hrep
+    simp [hrep, this]; intro v; exact eq_comm
+  · have hn : ¬ kindRange word k x := fun e => hrep (hr.mpr e)
+    simp [hrep, hn]
+
+/-- The generated declaration `const c = K(x) op K(y)` is accepted exactly when `x`, `y` and the exact
+result are all in K's range (and there is no zero divisor); the folded value is the exact result. -/
+theorem declBinTyped_ok_iff (word : Nat) (hw : word = 4 ∨ word = 8) (k : Kind) (hk : k.typed = true) (op : BOp) (x y v : Int) :
+    declBinTyped false word k op x y = .ok v ↔
+      kindRange word k x ∧ kindRange word k y ∧ ¬(op.isDiv = true ∧ y = 0) ∧ v = exactBin op x y ∧ kindRange word k v := by
+  unfold declBinTyped
+  have hcx := convert_exact word hw k x
+  have hcy := convert_exact word hw k y
+  have hb := (overflow_iff word hw k hk op x y).2.1 v
+  by_cases hx : kindRange word k x
+  · have ex : checkConvert word k x = .ok x := (hcx.1 x).mpr ⟨rfl, hx⟩
+    by_cases hy : kindRange word k y
+    · have ey : checkConvert word k y = .ok y := (hcy.1 y).mpr ⟨rfl, hy⟩
+      simp only [ex, ey, Verdict.bind, hb, hx, hy, true_and]
+    · have ey : checkConvert word k y = .cannot := hcy.2.mpr hy
+      simp [ex, ey, Verdict.bind, hy]
+  · have ex : checkConvert word k x = .cannot := hcx.2.mpr hx
+    simp [ex, Verdict.bind, hx]
+
+example : declBinTyped false 4 .int32 .add 2147483647 1 = .overflow ∧ declBinTyped false 4 .uint8 .sub 255 5 = .ok 250
+    ∧ declBinTyped false 4 .uint8 .add 256 0 = .cannot ∧ declBinTyped false 4 .int32 .rem 7 0 = .divzero := by decide
+
+/-! ## 5. the bridge: folded constant = run-time evaluation (Base/GoInt.lean), every width, signed and unsigned -/
+
+theorem dec_enc (t : Go.ITy) (ht : 0 < t.bits) (v : Int) (h : inRange t v) : dec t (enc t v) = v :=
+  dec_enc_lem t ht v h
+
+theorem enc_dec (t : Go.ITy) (b : BitVec t.bits) : enc t (dec t b) = b ∧ inRange t (dec t b) :=
+  ⟨enc_dec_lem t b, inRange_dec_lem t b⟩
+
+/-- `+ - * / % & | ^ &^`: if `x`, `y` and the exact result are representable in `t`, Go's run-time
+operator applied to the encodings returns the encoding of the exact result (never panics). -/
+theorem fold_eq_runtime_bin (t : Go.ITy) (ht : 0 < t.bits) (op : BOp) (x y : Int)
+    (hx : inRange t x) (hy : inRange t y) (hr : inRange t (exactBin op x y))
+    (hz : op.isDiv = true → y ≠ 0) :
+    Go.arith t.signed op.toGo (enc t x) (enc t y) = some (enc t (exactBin op x y)) :=
+  fold_eq_runtime_bin_lem t ht op x y hx hy hr hz
+
+/-- in terms of mathematical values: the compiled program computes exactly the folded constant -/
+theorem fold_eq_runtime_bin_val (t : Go.ITy) (ht : 0 < t.bits) (op : BOp) (x y : Int)
+    (hx : inRange t x) (hy : inRange t y) (hr : inRange t (exactBin op x y))
+    (hz : op.isDiv = true → y ≠ 0) :
+    runBin t op x y = some (exactBin op x y) := by
+  unfold runBin
+  rw [fold_eq_runtime_bin t ht op x y hx hy hr hz]
+  simp [dec_enc t ht _ hr]
+
+example : inRange Go.i32 (-2147483648) ∧ inRange Go.i32 2 ∧ inRange Go.i32 (exactBin .quo (-2147483648) 2) := by decide
+example : runBin Go.u8 .sub 255 5 = some 250 ∧ runBin Go.i32 .quo (-7) 2 = some (-3) ∧ runBin Go.i64 .rem (-7) 2 = some (-1) := by decide
+
+/-- without the representability hypothesis the statement fails (run time wraps, constants do not) -/
+theorem fold_eq_runtime_needs_representable : runBin Go.u8 .add 255 1 = some 0 ∧ exactBin .add 255 1 = 256 := by decide
+
+theorem fold_eq_runtime_shl (t : Go.ITy) (x : Int) (s : Nat) :
+    Go.shl (enc t x) s = enc t (exactShift .shl x s) :=
+  fold_eq_runtime_shl_lem t x s
+
+theorem fold_eq_runtime_shr (t : Go.ITy) (ht : 0 < t.bits) (x : Int) (s : Nat)
+    (hx : inRange t x) (hr : inRange t (exactShift .shr x s)) :
+    Go.shr t.signed (enc t x) s = enc t (exactShift .shr x s) :=
+  fold_eq_runtime_shr_lem t ht x s hx hr
+
+example : inRange Go.i32 (-8) ∧ inRange Go.i32 (exactShift .shr (-8) 33) ∧ runShift Go.i32 .shr (-8) 33 = -1 := by decide
+
+theorem fold_eq_runtime_cmp (t : Go.ITy) (ht : 0 < t.bits) (c : Go.Cmp) (x y : Int)
+    (hx : inRange t x) (hy : inRange t y) :
+    Go.cmp t.signed c (enc t x) (enc t y) = exactCmp c x y :=
+  fold_eq_runtime_cmp_lem t ht c x y hx hy
+
+example : inRange Go.u64 18446744073709551615 ∧ runCmp Go.u64 .lt 18446744073709551615 1 = false
+    ∧ runCmp Go.i64 .lt (-1) 1 = true := by decide
+
+theorem fold_eq_runtime_neg (t : Go.ITy) (x : Int) : Go.neg (enc t x) = enc t (exactUn .neg x 0) :=
+  fold_eq_runtime_neg_lem t x
+
+/-- `^x` with the checker's precision rule (0 for signed, the width for unsigned types) -/
+theorem fold_eq_runtime_not (t : Go.ITy) (x : Int) :
+    Go.compl (enc t x) = enc t (exactUn .not x (if t.signed then 0 else t.bits)) :=
+  fold_eq_runtime_not_lem t x
+
+/-- conversion between integer types: for a value representable in the source type the run-time
+conversion yields the encoding of the same value in the target type (so a constant conversion,
+which additionally requires representability in the target, is exact) -/
+theorem fold_eq_runtime_conv (t1 t2 : Go.ITy) (ht : 0 < t1.bits) (x : Int) (hx : inRange t1 x) :
+    Go.conv t1.signed (enc t1 x) t2.bits = enc t2 x :=
+  fold_eq_runtime_conv_lem t1 t2 ht x hx
+
+theorem conv_exact_val (t1 t2 : Go.ITy) (h1 : 0 < t1.bits) (h2 : 0 < t2.bits) (x : Int)
+    (hx : inRange t1 x) (hy : inRange t2 x) : runConv t1 t2 x = x := by
+  unfold runConv
+  rw [fold_eq_runtime_conv t1 t2 h1 x hx, dec_enc t2 h2 x hy]
+
+example : inRange Go.i64 200 ∧ inRange Go.u8 200 ∧ runConv Go.i64 Go.u8 200 = 200 ∧ runConv Go.i64 Go.u8 456 = 200 := by decide
+
 end WaVerif.C15
